@@ -83,7 +83,7 @@ func (a Bool) M__eq__(other Object) (Object, error) {
 	if b, ok := convertToBool(other); ok {
 		return NewBool(a == b), nil
 	}
-	return False, nil
+	return NotImplemented, nil
 }
 
 func (a Bool) M__ne__(other Object) (Object, error) {
